@@ -16,6 +16,7 @@ RULE = ('Five legs of seeded random 3-8 round histories on a linear-regression w
         'for hyp/mime/ignore, a float64 NumPy oracle. Non-trivial: >=3 rounds (steps) with at least one round of >=2 '
         'clients (ignore: a non-empty proper subset or >=3 steps) and not discarded as ill-conditioned; distinct by '
         '(leg, configuration, population, cohorts).')
+RULE += (' Wave-4 addition: APFL evaluation (eval_adaptive_personalized_federated_learning on a toy Model) between training rounds on cohorts containing never-trained clients; the training state must store participants only.')
 ASSUMPTIONS = [
     'batch streams consumed by the oracles are the ones the real ClientDataset.shuffle_repeat_batch yields for the fixed '
     'seed (validated separately by C04)',
